@@ -482,6 +482,10 @@ class Lower:
                 d = self.decl(v)
                 out += [p + x for x in self.flush_pre()]
                 out.append(p + d)
+                if self.needs_prop:
+                    out.append(p + 'if (bl_exc) return %s;' % self.ret0)
+                    self.needs_prop = False
+                out.append(p + '/*@AFTERDECL:%s:%s@*/' % (self.fn, v.get('name', '_')))
         elif k == 'ReturnStmt':
             ks = kids(n)
             e = self.ret_expr(ks[0]) if ks else None
